@@ -2,7 +2,7 @@
    scoped.  Model: coq/Eval/Calc.v (ast::evaluate, Scope, Value::apply,
    resolve_identifier, evaluate_to_spans; numbers, built-ins and units are
    parameters).  Property theorems only; each closed by [exact]. *)
-From FendV Require Import Base.Prelude Eval.Calc Eval.CalcProofs Eval.CalcZ.
+From FendV Require Import Base.Prelude Eval.Calc Eval.CalcProofs Eval.CalcZ Eval.Close Eval.CloseProofs.
 Open Scope N_scope.
 
 Section C09.
@@ -104,6 +104,65 @@ Theorem C09_completed_assignments_survive_failure : forall fire f e vs s e0,
   /\ s_vars s = replay (s_log s) vs /\ Forall (is_assign num) (s_log s).
 Proof. exact (top_failure_lemma num num_un num_bop builtin builtin_apply unit_of unit_static fmt_polls fmt_ok). Qed.
 
+(* ---- substitution form (closing a scope into an expression, Eval/Close.v) ----
+   Names are split by [isparam] into names used as lambda parameters and all
+   other names.  Side conditions, all about names: the evaluator's own
+   parameter x (wrap_with_expr) is a parameter name; built-in function names
+   are not; no unit is called a_b with a or b a parameter name; every binder
+   is a parameter name and parameter names do not occur free at top level
+   ([config_ok], [WFst] say this for the expression, its scope and the
+   variables of the context). *)
+Section Subst.
+Variable isparam : ident -> bool.
+Hypothesis Hx : isparam id_x = true.
+Hypothesis Hbuiltin : forall x g, builtin x = Some (inl g) -> isparam g = false.
+Hypothesis Hunit : forall a b, isparam a = true \/ isparam b = true -> unit_static (underscore_join a b) = None.
+
+(* Two configurations with the same closed form are evaluated in lockstep:
+   same result (closures up to their closed form), same variables, same
+   error, same polls -- also under an interrupt. *)
+Theorem C09_lockstep : forall fire f (e1 e2 : expr num) s1 s2 st,
+  config_ok num isparam e1 s1 -> config_ok num isparam e2 s2 ->
+  close s1 e1 = close s2 e2 -> WFst num isparam st ->
+  same_outcome num (eval fire f e1 s1 st) (eval fire f e2 s2 st).
+Proof. exact (lockstep_same_lemma num num_un num_bop builtin builtin_apply unit_of unit_static isparam Hx Hbuiltin Hunit). Qed.
+
+(* beta: applying a lambda gives the same result as substituting the
+   parenthesised argument for the parameter (free occurrences; an inner
+   binder of the same name shadows), provided no binder of the body on the
+   way to such an occurrence is a name of the argument.  Call-by-name on
+   both sides: the argument is re-evaluated at every use.  The application
+   itself costs two polls (three through parentheses). *)
+Theorem C09_beta : forall f x (b a : expr num) sc st,
+  config_ok num isparam (EApplyFn (EFn x b) a) sc -> WFst num isparam st ->
+  capture_free x (idents a) b = true ->
+  same_outcome num (eval None (S (S f)) (EApplyFn (EFn x b) a) sc st)
+                   (eval None (S f) (subst x (EParens a) b) sc (bump num 2 st)).
+Proof. exact (beta_subst_lemma num num_un num_bop builtin builtin_apply unit_of unit_static isparam Hx Hbuiltin Hunit). Qed.
+
+Theorem C09_beta_parens : forall f x (b a : expr num) sc st,
+  config_ok num isparam (EApply (EParens (EFn x b)) a) sc -> WFst num isparam st ->
+  capture_free x (idents a) b = true ->
+  same_outcome num (eval None (S (S (S f))) (EApply (EParens (EFn x b)) a) sc st)
+                   (eval None (S (S f)) (subst x (EParens a) b) sc (bump num 3 st)).
+Proof. exact (beta_subst_apply_lemma num num_un num_bop builtin builtin_apply unit_of unit_static isparam Hx Hbuiltin Hunit). Qed.
+
+(* lexical scope, semantically: an expression with no free parameter name
+   means the same in every scope *)
+Theorem C09_scope_irrelevant : forall fire f (e : expr num) s1 s2 st,
+  okp isparam [] e = true -> wss isparam s1 = true -> wss isparam s2 = true -> WFst num isparam st ->
+  same_outcome num (eval fire f e s1 st) (eval fire f e s2 st).
+Proof. exact (closed_scope_irrelevant_lemma num num_un num_bop builtin builtin_apply unit_of unit_static isparam Hx Hbuiltin Hunit). Qed.
+
+(* let-substitution for assigned names (x = e; ... x ...  vs  ... (e) ...) is
+   NOT proved: variables hold values (call-by-value, read when used) while the
+   substituted text is re-evaluated, so the two runs are not in lockstep; the
+   law is tested (gen/c09.py, let pairs) for right-hand sides whose
+   dependencies are not reassigned.  Full statement, for the record:
+     pure e -> stable e uses ->
+     eval (EStmts (EAssign x e) u) ~ eval (subst x (EParens e) u)  after the assignment. *)
+End Subst.
+
 End C09.
 
 Print Assumptions C09_scope_lookup_innermost.
@@ -118,6 +177,10 @@ Print Assumptions C09_shadow_exception_unit.
 Print Assumptions C09_ans_on_success.
 Print Assumptions C09_ans_unchanged_on_failure.
 Print Assumptions C09_completed_assignments_survive_failure.
+Print Assumptions C09_lockstep.
+Print Assumptions C09_beta.
+Print Assumptions C09_beta_parens.
+Print Assumptions C09_scope_irrelevant.
 
 (* ------------------------------------------------------------------ *)
 (* non-vacuity, on the integer instance *)
@@ -154,3 +217,31 @@ Example C09_failure_example :
   /\ get_var (idn "a") (s_vars (fst r)) = Some (VNum 1%Z)
   /\ get_var id_ans (s_vars (fst r)) = Some (VNum 7%Z).
 Proof. vm_compute. auto. Qed.
+
+(* the side conditions of the substitution theorems are satisfiable on the
+   integer instance: parameter names are x and names starting with p;
+   abs is not one; there are no a_b units *)
+Definition zparam (x : ident) : bool := match x with c :: _ => (c =? 112) || ident_eqb x id_x | [] => false end.
+
+Example C09_subst_hypotheses :
+  zparam id_x = true
+  /\ (forall x g, zbuiltin x = Some (inl g) -> zparam g = false)
+  /\ (forall a b, zparam a = true \/ zparam b = true -> zunit (underscore_join a b) = None).
+Proof.
+  split; [reflexivity|]. split; [|reflexivity].
+  intros x g. unfold zbuiltin. destruct (ident_eqb x id_abs); intro H; inversion H. reflexivity.
+Qed.
+
+(* (\p1. \p2. p1 + p2 * g) (g + 1): well-scoped, capture-free, and both sides of
+   beta evaluate to closures with the same closed form *)
+Example C09_beta_example :
+  let b := EFn (idn "p2") (EBop BPlus (EIdent (idn "p1")) (EBop BMul (EIdent (idn "p2")) (EIdent (idn "g")))) in
+  let a := EBop BPlus (EIdent (idn "g")) (ELit 1%Z) in
+  let st := mkS [(idn "g", VNum 5%Z)] 0 [] in
+  okp zparam [] (EApplyFn (EFn (idn "p1") b) a) = true
+  /\ capture_free (idn "p1") (idents a) b = true
+  /\ nout (snd (zeval None 20 (EApplyFn (EFn (idn "p1") b) a) SNil st))
+     = nout (snd (zeval None 19 (subst (idn "p1") (EParens a) b) SNil st))
+  /\ snd (zeval None 20 (EApplyFn (EFn (idn "p1") b) a) SNil st)
+     <> snd (zeval None 19 (subst (idn "p1") (EParens a) b) SNil st).
+Proof. vm_compute. repeat split. discriminate. Qed.
